@@ -140,7 +140,10 @@ def main():
                     for i in range(M): exp += [i * N + j, -(100 + i * N + j)]
                 if [Fraction(v) for v in vals] != exp: mism.append({'what': 'ctranspose', 'cfg': cfg.name, 'case': c, 'detail': 'got %s expected %s' % ([str(v) for v in vals[:8]], exp[:8])})
                 continue
-            vals = [int(parse_num(v)) for v in p[2:]]
+            vals = []
+            for v in p[2:]:
+                q = parse_num(v)
+                vals.append(int(q) if (not isinstance(q, str) and q.denominator == 1) else str(q))       # nan / inf / fractions stay as text and mismatch
             if c['k'] == 'P':
                 key17 = 'E17' if cfg.std == 'c++17' else 'E14'
                 if tag == 'D': exp = model[('D', cid)]
